@@ -311,14 +311,10 @@ func (fr *frame) applyContract(ct *Contract, callee *ssa.Function, sig *types.Si
 	}
 	// captured variables of closures are visible by name (as their values)
 	if callee != nil {
+		ctx.capt = map[string]tv{}
 		for i, fv := range callee.FreeVars {
 			if i < len(bindings) {
-				et := deref(fv.Type())
-				if !isStruct(et) {
-					key := vc.keyCell(et)
-					ctx.params[fv.Name()] = Term{fmt.Sprintf("(select %s %s)", vc.cur(st, key), bindings[i].S), sortOf(et)}
-					ctx.ptypes[fv.Name()] = et
-				}
+				ctx.capt[fv.Name()] = tv{bindings[i], fv.Type()}
 			}
 		}
 	}
@@ -397,19 +393,6 @@ func (fr *frame) applyContract(ct *Contract, callee *ssa.Function, sig *types.Si
 	post.old = pre
 	post.results = res
 	post.rtypes, post.rnames = resultTypes(sig)
-	// closure captured variables in post state refer to new values
-	if callee != nil {
-		for i, fv := range callee.FreeVars {
-			if i < len(bindings) {
-				et := deref(fv.Type())
-				if !isStruct(et) {
-					key := vc.keyCell(et)
-					post.params = cloneTermMap(post.params)
-					post.params[fv.Name()] = Term{fmt.Sprintf("(select %s %s)", vc.cur(st, key), bindings[i].S), sortOf(et)}
-				}
-			}
-		}
-	}
 	for _, cl := range ct.Ensures {
 		g, err := post.trBool(cl.Expr)
 		if err != nil {
@@ -569,6 +552,18 @@ func (fr *frame) applyModSpec(m ModSpec, ctx *specCtx, st *State) {
 	case "key":
 		if vc.kinds[m.Name] != nil {
 			fr.havocKeys(st, []string{m.Name})
+		}
+	case "captured":
+		a, ok := ctx.capt[m.Name]
+		if !ok {
+			// verifying the closure itself or unknown name: nothing to do at a call site
+			return
+		}
+		et := deref(a.ty)
+		for _, c := range fr.cellsOf(a.Term, et) {
+			fr.frameWrite(c.key, c.idx, st)
+			fv := vc.freshConst("capt", vc.kinds[c.key].Val)
+			vc.set(st, c.key, fmt.Sprintf("(store %s %s %s)", vc.cur(st, c.key), c.idx, fv.S))
 		}
 	case "mapkey":
 		obj, err := ctx.tr(m.Expr)
@@ -778,6 +773,12 @@ func (fr *frame) ghostSelectSends(x *ssa.Select, st *State) {
 // chanEvent: a send on a channel held in a struct field may be tied to a
 // ghost counter by a "chansend" spec: the counter is incremented.
 func (fr *frame) chanEvent(ch ssa.Value, x ssa.Value, st *State) {
+	if g := fr.enc.db.Ghosts["chsent"]; g != nil && g.Key != nil {
+		key := fr.vc().keyGhostChan(g, ch.Type())
+		c := fr.val(ch)
+		fr.frameGhostAt(key, c.S, st)
+		fr.vc().set(st, key, fmt.Sprintf("(store %s %s (+ (select %s %s) 1))", fr.vc().cur(st, key), c.S, fr.vc().cur(st, key), c.S))
+	}
 	// resolved lazily by field name: see specs "ghost sent_<Type>_<field>"
 	load, ok := ch.(*ssa.UnOp)
 	if !ok {
@@ -801,9 +802,13 @@ func (fr *frame) chanEvent(ch ssa.Value, x ssa.Value, st *State) {
 	fr.vc().set(st, key, fmt.Sprintf("(+ %s 1)", fr.vc().cur(st, key)))
 }
 
+// unframedGhost: bookkeeping ghosts that are not part of any function's frame
+// (mutex typestate, channel send counters).
+var unframedGhost = map[string]bool{"G:locked": true, "G:lockcount": true}
+
 func (fr *frame) frameGhostWhole(key string, st *State) {
 	e := fr.enc
-	if !e.frameCheck {
+	if !e.frameCheck || unframedGhost[key] {
 		return
 	}
 	for _, d := range e.declMods {
@@ -816,7 +821,7 @@ func (fr *frame) frameGhostWhole(key string, st *State) {
 
 func (fr *frame) frameGhostAt(key, idx string, st *State) {
 	e := fr.enc
-	if !e.frameCheck {
+	if !e.frameCheck || unframedGhost[key] {
 		return
 	}
 	var alts []string
